@@ -271,13 +271,16 @@ def _localise(case, whole, other, window, flip):
                     with np.errstate(invalid="ignore"):
                         diff = np.abs(x.astype(np.float64) - y.astype(np.float64))[ne]
                     maxabs = float(np.nanmax(diff)) if np.isfinite(diff).any() else float("inf")
+                    with np.errstate(invalid="ignore"):
+                        mag = np.abs(x.astype(np.float64))[ne]
+                    scale = float(np.nanmax(mag)) if np.isfinite(mag).any() else 1.0
                     entering = None
                     if i > 0 and not in_cv:
                         prev = whole.steps[i - 1].get(f"{side}_disp")
                         if prev is not None and "disparity_map" in prev:
                             entering = prev["disparity_map"].data[pix[:, 0], pix[:, 1]]
                     return {"index": i, "kind": kind, "method": method, "side": side, "var": v, "pixels": pix,
-                            "maxabs": maxabs, "entering": entering}
+                            "maxabs": maxabs, "entering": entering, "scale": scale}
     return None
 
 
@@ -287,18 +290,21 @@ def _classify(case, loc, window, flip):
         return "final products only", "unlocalised"
     site = f"{loc['kind']}:{loc['method']}"
     method = legal.parse_mc(case["pipe"][0])["matching_cost_method"]
+    # "rounding-level": within a few float32 ulps of the values compared (1e-5 for values up to 10, 1e-6 relative
+    # above: an aggregated census 5x5 cost of 20 carries float32 running sums of about a thousand)
+    tiny = max(TINY, 1e-6 * float(loc.get("scale") or 1.0))
     if (not flip and loc["kind"] == "validation" and loc["var"] == "validity_mask" and window[1] % 2 == 1
             and loc["entering"] is not None and loc["entering"].size
             and bool(np.all(np.abs(np.mod(loc["entering"].astype(np.float64), 1.0)) == 0.5))):
         return site, "half-integer disparity at cross-checking, odd column offset"
-    if loc["kind"] == "aggregation" and method == "zncc" and loc["var"] == "cost_volume" and loc["maxabs"] <= TINY:
+    if loc["kind"] == "aggregation" and method == "zncc" and loc["var"] == "cost_volume" and loc["maxabs"] <= tiny:
         return site, "zncc costs, rounding-level"
     kinds = [legal.kind_of(n) for n in case["pipe"]]
-    if (loc["kind"] == "aggregation" and loc["var"] == "cost_volume" and loc["maxabs"] <= TINY
+    if (loc["kind"] == "aggregation" and loc["var"] == "cost_volume" and loc["maxabs"] <= tiny
             and kinds.count("aggregation") >= 2 and loc.get("index", 0) > kinds.index("aggregation")):
         # a second cbca aggregates the (non-integer) averages produced by the first one: same float32 running sums
         return site, "already aggregated (non-integer) costs, rounding-level"
-    return site, f"{loc['var']}, {'rounding-level' if loc['maxabs'] <= TINY else 'different values'}"
+    return site, f"{loc['var']}, {'rounding-level' if loc['maxabs'] <= tiny else 'different values'}"
 
 
 def _violation(case, arr, whole_obs_cache, clause, bad, window, keep, flip, layout="C"):
